@@ -41,9 +41,14 @@ NewCtx(id) == /\ Step /\ boot /\ Cardinality(cx) < 3
 CancelParent(n) == /\ Step /\ \E c \in cx : c.n = n /\ ~c.cancelled
                    /\ cx' = {IF c.n = n THEN [c EXCEPT !.cancelled = TRUE, !.obs = TRUE] ELSE c : c \in cx}
                    /\ UNCHANGED <<boot, items, rd, partial>>
+(* a filtered List (label / ID query) running concurrently with one cache mutation: the state effect is the mutation; what *)
+(* the List may return (the contents at ONE instant: before or after the mutation) is judged on the code (TraceCache)        *)
+RaceListPut(id, v) == PutRes(id, v)
+RaceListRemove(id) == Remove(id)
 Vals == [ver : 1..MaxVer, td : BOOLEAN]
 Next == \/ \E id \in Ids, v \in Vals : CAppend(id, v) \/ PutRes(id, v)
-        \/ MarkBoot \/ \E id \in Ids : Remove(id) \/ NewCtx(id)
+        \/ MarkBoot \/ \E id \in Ids : Remove(id) \/ NewCtx(id) \/ RaceListRemove(id)
+        \/ \E id \in Ids, v \in Vals : RaceListPut(id, v)
         \/ \E n \in 1..3 : CancelParent(n)
         \/ \E r \in Readers, op \in {"get", "list"}, id \in Ids : Read(r, op, id)
         \/ \E r \in Readers : Ack(r)
